@@ -67,9 +67,18 @@ def main():
         for var in variants.variants_for(ast):
             mods.append((ast, var))
     # longest-processing-time style distribution: round robin over shards in program order keeps sizes even
-    per = [[] for _ in range(shards)]
-    for i, (ast, var) in enumerate(mods):
-        per[i % shards].append((ast, var))
+    # programs with BYODS providers get crates of their own (one per provider): a provider that does not compile for
+    # some access pattern must not take the rest of the corpus down with it
+    ds_crates = {"ds10": shards, "ds11": shards + 1, "ds12": shards + 2}
+    per = [[] for _ in range(shards + 3)]
+    i = 0
+    for (ast, var) in mods:
+        tag = next((t for t in ds_crates if t in ast["tags"]), None)
+        if tag:
+            per[ds_crates[tag]].append((ast, var))
+        else:
+            per[i % shards].append((ast, var))
+            i += 1
     members = []
     for s, lst in enumerate(per):
         crate = f"corpus{s}"
@@ -132,7 +141,7 @@ fn main() {
         with open(os.path.join(d, "src", "main.rs"), "w") as f:
             f.write("\n".join(main_rs))
     with open(os.path.join(ROOT, "gen", "corpus_index.json"), "w") as f:
-        json.dump({"modules": index, "shards": shards}, f, indent=1)
+        json.dump({"modules": index, "shards": shards, "ds_shards": [shards, shards + 1, shards + 2]}, f, indent=1)
     # workspace members
     ws = os.path.join(ROOT, "harness", "Cargo.toml")
     txt = open(ws).read()
